@@ -5,6 +5,10 @@ use crate::mon::Ctx;
 pub mod c09;
 pub mod c10;
 pub mod c11;
+pub mod c12;
+pub mod c13;
+pub mod c13_grid;
+pub mod c13_model;
 pub mod c19;
 pub mod c20;
 pub mod selftest;
@@ -17,6 +21,8 @@ pub fn run(id: &str, ctx: &mut Ctx) -> bool {
         "C11" => c11::run(ctx),
         "C10REPRO" => c10::repro(ctx),
         "C11REPRO" => c11::repro(ctx),
+        "C12" => c12::run(ctx),
+        "C13" => c13::run(ctx),
         "C19" => c19::run(ctx),
         "C20" => c20::run(ctx),
         _ => return false,
